@@ -33,6 +33,7 @@ RULE = (
     "individuals with different visit counts; distinct by case."
 )
 ASSUMPTIONS = [
+    "mixture_logistic is not generated here: its initialisation assigns individuals to initial clusters by position (order-dependent by design) and its per-cluster term shapes differ; the locality of its individual sampler decisions is judged by C03.",
     "Replacing the other individuals keeps their ages and missingness pattern (tensor shapes unchanged), so bit-identity is decidable; draws are position-indexed (same seed -> same draw for row i).",
     "Totals vs sums of per-individual terms and alone-vs-batch comparisons use rtol 1e-5 (summation order); `others` relations are bit-exact (same positions); under a permutation per-individual terms are compared within 64 ulp (vectorised kernels round position-dependently) and scipy_minimize outputs within 2e-2 (the optimiser amplifies rounding; only mis-pairing is judged); initial parameters within one 2^-16 rounding step.",
     "Personalised parameters are compared across a permutation only for scipy_minimize (deterministic, per-individual); chain-based algorithms are compared under `others` with positions fixed.",
@@ -133,6 +134,13 @@ IND_TERMS = ("nll_attach_ind", "nll_regul_ind_sum_ind", "nll_regul_tau_ind", "nl
 TOTALS = (("nll_attach", "nll_attach_ind"), ("nll_regul_ind_sum", "nll_regul_ind_sum_ind"), ("nll_regul_tau", "nll_regul_tau_ind"), ("nll_regul_xi", "nll_regul_xi_ind"))
 
 
+def tval(v):
+    """plain tensor of a value (mixture kinds return some terms as WeightedTensor)"""
+    from leaspy.utils.weighted_tensor import WeightedTensor
+
+    return v.weighted_value if isinstance(v, WeightedTensor) else v
+
+
 def individual_step(s, ds, name, seed, std_factor):
     import random as _r
 
@@ -191,14 +199,14 @@ def body(col: Collector, case):
     try:
         mA, dsA, sA = build(cfg, cohort, case["lat"])
         set_latents(sA, lat_rows)
-        termsA = {t: fast_copy(sA[t]) for t in IND_TERMS if t in sA.dag}
+        termsA = {t: tval(fast_copy(sA[t])) for t in IND_TERMS if t in sA.dag}
         # ---------------------------------------------------------------- totals are the sums of the per-individual terms
         for tot, per in TOTALS:
             if tot in sA.dag and per in sA.dag:
-                a, b = sA[tot].double(), sA[per].double().sum()
-                if not bool(torch.isfinite(sA[per].double()).all()):
+                a, b = tval(sA[tot]).double(), tval(sA[per]).double().sum()
+                if not bool(torch.isfinite(tval(sA[per]).double()).all()):
                     col.exclude("totals-not-compared(non-finite per-individual term)")
-                elif not torch.allclose(a, b, rtol=1e-5, atol=1e-6 * float(sA[per].double().abs().sum() + 1)):
+                elif not torch.allclose(a, b, rtol=1e-5, atol=1e-6 * float(tval(sA[per]).double().abs().sum() + 1)):
                     raise Fail(f"totals:{tot}-is-not-the-sum-of-{per}", float(a), float(b))
         # ---------------------------------------------------------------- others
         cohB = replace_others(cohort, keep, case["other_vals"], kind)
@@ -221,7 +229,7 @@ def body(col: Collector, case):
                         cur[r] = cur[r] * 1.1 + (0.3 if k != "tau" else 1.5) * gen.tensor_from(lat_rows_B[r], tuple(cur[r].shape), like=cur)
                 sBf[k] = cur
         for t, vA in termsA.items():
-            vB = sBf[t]
+            vB = tval(sBf[t])
             if not same(vA[i], vB[i]):
                 raise Fail(f"others:{t}-of-individual-depends-on-other-individuals", vB[i].tolist(), vA[i].tolist())
         col.case(classes=base_classes + ["others"], sample=None)
@@ -259,7 +267,7 @@ def body(col: Collector, case):
             for k in ind_vars:
                 s1[k] = sA._values[k][i:i + 1].clone()
         for t, vA in termsA.items():
-            v1 = s1[t]
+            v1 = tval(s1[t])
             if not torch.allclose(v1[0].double(), vA[i].double(), rtol=1e-5, atol=1e-6, equal_nan=True):
                 raise Fail(f"alone:{t}-alone-differs-from-batch", v1[0].tolist(), vA[i].tolist())
         col.case(classes=["alone"], sample=None)
@@ -288,14 +296,14 @@ def body(col: Collector, case):
             for k in ind_vars:
                 sP[k] = sA._values[k][perm].clone()
         for t, vA in termsA.items():
-            vP = sP[t]
+            vP = tval(sP[t])
             # vectorised element-wise kernels may round differently by an ulp depending on the position in the vector
             eps = 1.2e-7 if vA.dtype == torch.float32 else 2.3e-16
             if not torch.allclose(vA[perm].double(), vP.double(), rtol=64 * eps, atol=64 * eps, equal_nan=True):
                 raise Fail(f"permute:{t}-not-permuted", vP.tolist(), vA[perm].tolist())
         for tot, per in TOTALS:
             if tot in sA.dag:
-                a, b = sA[tot].double(), sP[tot].double()
+                a, b = tval(sA[tot]).double(), tval(sP[tot]).double()
                 if not torch.allclose(a, b, rtol=1e-5, atol=1e-6, equal_nan=True):
                     raise Fail(f"permute:{tot}-changes-with-order", float(b), float(a))
         if case["algo"] == "scipy_minimize":
@@ -331,7 +339,7 @@ def body(col: Collector, case):
 def rel_case(draw, kinds):
     cfg = draw(gen.model_cfg(kinds=kinds, dim=(1, 3)))
     feats = [f"f{j}" for j in range(cfg["kwargs"]["dimension"])]
-    cohort = draw(gen.cohort(kind=gen.data_kind_for(cfg), n_ind=(3, 8), n_visits=(1, 5), features=feats, event=cfg["kind"] == "joint",
+    cohort = draw(gen.cohort(kind=gen.data_kind_for(cfg), n_ind=(max(3, gen.min_ind_for(cfg)), 8), n_visits=(1, 5), features=feats, event=cfg["kind"] == "joint",
                              id_kinds=("s", "digits"), shuffle=False))
     return dict(cfg=cfg, cohort=cohort, focus=draw(st.integers(0, 7)), lat=draw(st.lists(gen.f32(-1.5, 1.5), min_size=3, max_size=9)),
                 other_vals=draw(st.lists(gen.f32(-1, 1), min_size=2, max_size=8)), perm=draw(st.lists(st.integers(0, 20), min_size=3, max_size=8)),
